@@ -485,8 +485,50 @@ def _check_map(case):
         shutil.rmtree(base, ignore_errors=True)
 
 
+def _axes_family_cases(tier, rng):
+    """Families of MapSpecs that index one array `a`: every selection of up to 3 (4) index patterns, in every order."""
+    import itertools
+    pats2 = [("i", None), (None, "j"), ("k", None), ("i", "j"), (None, None), ("j", "i"), ("i",), ("k", "j")]
+    for n in (2, 3):
+        for fam in itertools.permutations(pats2, n):
+            yield {"family": [list(x) for x in fam]}
+    pats3 = [("i", None, None), (None, "j", None), (None, "k", None), (None, None, "l"), ("i", "j", None), ("m", None, "l")]
+    for _ in range(150 if tier == "quick" else 1500):
+        yield {"family": [list(rng.choice(pats3)) for _ in range(rng.randint(2, 4))]}
+
+
+def _check_axes_family(case):
+    from pipefunc.map._mapspec import MapSpec, validate_consistent_axes
+    fam = [tuple(x) for x in case["family"]]
+    specs = []
+    for n, pat in enumerate(fam):
+        named = [a for a in pat if a is not None]
+        inp = "a[" + ", ".join(a if a is not None else ":" for a in pat) + "]"
+        if not named:
+            inp += f", b{n}[q]"
+            named = ["q"]
+        specs.append(MapSpec.from_string(f"{inp} -> r{n}[{', '.join(named)}]"))
+    # reference: one rank per array, at most one index name per position of an array
+    ok = len({len(p_) for p_ in fam}) == 1 and all(
+        len({p_[i] for p_ in fam if p_[i] is not None}) <= 1 for i in range(len(fam[0])))
+    try:
+        validate_consistent_axes(specs)
+        accepted = True
+    except ValueError:
+        accepted = False
+    shown = [str(m) for m in specs]
+    if ok and not accepted:
+        return [f"consistent family refused: {shown}"]
+    if not ok and accepted:
+        return [f"inconsistent family accepted (an array position named differently, or different ranks): {shown}"]
+    return []
+
+
 def bounded_checks():
     return [
+        ("inconsistent-axes-families", Check("inconsistent-axes-families", _axes_family_cases, _check_axes_family,
+                                             "ordered selections of 2-3 of 8 index patterns of one rank-2 array (exhaustive) "
+                                             "+ random families of 2-4 rank-3 patterns", key=repr, shards=2)),
         ("reject-illformed-pipelines", Check("reject-illformed-pipelines", _dag_cases, _check_dag, RULE, shards=4,
                                              key=lambda c: repr(c))),
         ("reject-illformed-map-requests", Check("reject-illformed-map-requests", _map_cases, _check_map, RULE,
